@@ -53,6 +53,9 @@ ObsSorted(obs) == \A s \in SeqToSet(obs.segs) : SegSorted(s)
 ObsIs(obs, S) == ObsConsistent(obs) /\ ObsSorted(obs) /\ (kf \/ ObsDocs(obs) = S)
                  /\ obs.metaop = metaop
 
+\* C18: the writer lock is released (the meta lock may be held by a concurrent reader)
+WriterLockFree(locks) == ".tantivy-writer.lock" \notin SeqToSet(locks)
+
 Known(tag) == PrintT(<<"KF", tag, l>>)
 
 TReset ==
@@ -69,7 +72,7 @@ TNewWriter ==
 TDropWriter ==
   /\ Ev.ev = "drop_writer"
   /\ Ev.ok = wopen
-  /\ Ev.locks = <<>>                       \* C18: the lock is released with the writer
+  /\ WriterLockFree(Ev.locks)                       \* C18: the lock is released with the writer
   /\ wopen' = FALSE /\ pend' = commd /\ dirty' = FALSE
   /\ UNCHANGED <<commd, lo, metaop, payload, wCreated, sorted, kf>>
 
@@ -140,7 +143,7 @@ TMerge ==
 TWaitMerges ==
   /\ Ev.ev = "wait_merges" /\ Ev.ok /\ wopen
   /\ ObsIs(Ev.obs, commd) /\ Ev.obs.payload = payload
-  /\ Ev.locks = <<>>
+  /\ WriterLockFree(Ev.locks)
   /\ wopen' = FALSE /\ pend' = commd /\ dirty' = FALSE
   /\ UNCHANGED <<commd, lo, metaop, payload, wCreated, sorted, kf>>
 
@@ -155,7 +158,7 @@ TObserve ==
 
 TEnd ==
   /\ Ev.ev = "end"
-  /\ Ev.locks = <<>>
+  /\ WriterLockFree(Ev.locks)
   /\ UNCHANGED <<pend, commd, lo, metaop, payload, wopen, wCreated, dirty, sorted, kf>>
 
 \* calls on a missing writer are refused by the harness itself
@@ -182,7 +185,7 @@ TCrashImage ==
      /\ LET a == Ev.rec.after IN
         /\ a.writer = "ok" /\ a.add /\ a.commit /\ a.gc /\ a.wait
         /\ ObsConsistent(a.obs) /\ ObsDocs(a.obs) = ObsDocs(o) \cup {ProbeDoc}
-        /\ a.locks = <<>>
+        /\ WriterLockFree(a.locks)
         /\ \A i \in 1..Len(a.orphans) : a.orphans[i][2]
         /\ IF a.orphans = <<>> THEN TRUE
            ELSE Known("F4 orphan after recovering a crash image: registered in .managed.json but the registration was not durable")
